@@ -44,7 +44,9 @@ CLAIMS = {
             "fold, scanLoop_fold). The three whole-docstring theorems are partial: no defaults (the default sentence is "
             "covered by the C17 theorems, floats included), no return entry - except ReST, where C01_rest_return_partial carries a typed, "
             "described return entry through the :returns:/:rtype: pair (the return items do not flush the parameter being "
-            "collected, the final flush does), and numpydoc, where "
+            "collected, the final flush does), google, where GoogleRT.C01_google_return_partial does the same through the Returns: "
+            "section (scanLoop_googleR: the dedent that ends Args: finds the return token on the next line, for any number "
+            "of arguments), and numpydoc, where "
             "NumpyRT.C01_numpydoc_return_partial carries a typed, described return entry through the Returns/------- "
             "section (returnSplit_found: the return split finds the pair right after the argument units, for any number of "
             "arguments) - and the lexical side conditions listed in "
@@ -236,7 +238,11 @@ CLAIMS = {
     "C08": dict(
         technique="Lean 4 idempotence theorems on the interface-level normal forms + differential run of single and double conversions; byte comparison of second and third emission",
         text=(
-            "Kernel-checked: norm_cls_idem, norm_func_idem (and the per-entry normClassParam_idem / normFuncParam_idem): "
+            "Kernel-checked at statement level: SetNameIdem.setNameAndType_idem - the normalising step every parser ends "
+            "with (_set_name_and_type: prose re-flow, `, optional` rewriting, Optional[...] wrapping) applied to its own "
+            "result changes nothing, for every default-free entry that is not a **kwargs one (unwrapProse_idem: the prose "
+            "normalisation is idempotent on prose that starts with a visible character; with a default the quote-stripping of "
+            "_infer_default is NOT idempotent in general and is not claimed). " "Kernel-checked: norm_cls_idem, norm_func_idem (and the per-entry normClassParam_idem / normFuncParam_idem): "
             "a second normalising pass changes nothing, so the description after one round trip is a fixed point and the "
             "third emission is the emission of the same description as the second; chain_eq_fold relates the executable "
             "chain to the fold. Tied to the code by comparing the real single and double conversion with Kinds.chain [k] and "
@@ -369,7 +375,10 @@ CLAIMS = {
     "C19": dict(
         technique="Lean 4 theorems on the assembly step of gen (statement order, one definition per entry) + differential run of the statement order; structural predicate on the generated file",
         text=(
-            "Kernel-checked about Gen.genBody / Gen.hoist (the assembly of the generated module): genBody_defs (the "
+            "Kernel-checked: Gen.sortedDesc_eq / hoist_eq_sorted - the `sorted(imports, key=is_future, reverse=True)` of gen.gen, "
+            "modelled as a stable insertion sort on the Boolean key, is the __future__ imports in their order followed by the "
+            "others in theirs (the driver runs the sort model, not its closed form); sortedAsc_witness: a dropped reverse=True "
+            "puts __future__ last. " "Kernel-checked about Gen.genBody / Gen.hoist (the assembly of the generated module): genBody_defs (the "
             "definitions are exactly one per mapping entry, named by the template, in mapping order - for any mapping "
             "length), hoist_split (every import precedes every other statement), hoist_length and filter_other_hoist "
             "(nothing lost or duplicated; prepended statements and definitions keep their relative order). The order model "
